@@ -107,7 +107,16 @@ def per_vm_template(ctx: Ctx, rule: str) -> None:
     if len(inner) != 1:
         raise AnalysisError(f"{ITER}: object loop not found")
     ol = inner[0]
-    ok_it = ast.unparse(ol.iter) == "[o for o in graph.objects if o.key == 'vms']"
+    # the iterated collection, through a local if the code names it; the comprehension variable is free
+    it = ol.iter
+    if isinstance(it, ast.Name):
+        ds = [s_ for s_ in ast.walk(fn.node) if isinstance(s_, ast.Assign) and len(s_.targets) == 1 and ast.unparse(s_.targets[0]) == it.id]
+        it = ds[0].value if len(ds) == 1 else it
+    ok_it = False
+    if isinstance(it, ast.ListComp) and len(it.generators) == 1 and isinstance(it.generators[0].target, ast.Name):
+        g = it.generators[0]
+        v_ = g.target.id
+        ok_it = ast.unparse(it.elt) == v_ and ast.unparse(g.iter) == "graph.objects" and [ast.unparse(c) for c in g.ifs] == [f"{v_}.key == 'vms'"]
     sel = [s for s in fn.node.body if isinstance(s, ast.Assign) and ast.unparse(s.targets[0]) == "selected_vms"]
     objs = [l for l in fn.node.body if isinstance(l, ast.For) and ast.unparse(l.iter) == "selected_vms"]
     ok_sel = len(sel) == 1 and ast.unparse(sel[0].value) == "sorted(config['vm_strs'].keys())" and len(objs) == 1 and \
